@@ -578,6 +578,13 @@ def run_restart_scenario(seed, n_events=12, kill=True):
             else:
                 cl.append("trig", ctx=c); cl.settle(0.2, 3)
             rep["events"].append(f"{ev}@{ctxs.index(c)}")
+        if r.random() < 0.5:
+            # a definition that answers, then a broken redefinition of the same name (rejected: the old one keeps answering) -
+            # the restart must bring back the one that was in force
+            n, c = r.choice(["c", "d"]), r.choice(ctxs)
+            cl.append(n + ".define", ctx=c, body=CMD_ECHO.encode()); cl.settle(0.2, 3)
+            cl.append(n + ".define", ctx=c, body=b"{ run: {|frame| "); cl.settle(0.2, 3)
+            rep["events"] += [f"define@{ctxs.index(c)}", f"baddefine@{ctxs.index(c)}"]
         cl.settle()
         before = cl.frames()
         hist = classify(before)
@@ -1080,9 +1087,45 @@ def run_generator_scenario(seed, max_wait_s=12.0):
                 elif obs != want:
                     rep["violations"].append(dict(
                         what=f"duplex generator `{g['name']}`: sent {g['sends']}, observed {[(o['topic'], o['content']) for o in obs]}"))
+        # restart on the same store: a refused spawn stays refused ONCE (its .spawn.error is part of the history), accepted
+        # generators run again
+        if rep["violations"]:
+            return rep
+        pre_ids = {f["id"] for f in fr}
+        path = cl.path
+        cl.kill()
+        cl2 = Client("api,generators", path=path)
+        cl = None
+        try:
+            t_end = time.time() + 6
+            while time.time() < t_end:
+                fr2 = cl2.frames()
+                if all(any(f["topic"] == g["name"] + ".start" and f["id"] not in pre_ids and f["ctx"] == g["ctx"] for f in fr2)
+                       for g in gens if g["kind"] == "plain" and g["id"]):
+                    break
+                time.sleep(0.1)
+            cl2.settle(0.3, 4)
+            fr2 = cl2.frames()
+            for g in gens:
+                if not g["id"]:
+                    continue
+                sid = H.id_to_s(g["id"])
+                if g["kind"] == "refused":
+                    errs = [f for f in fr2 if f["topic"] == g["name"] + ".spawn.error" and f["meta"] and f["meta"].get("source_id") == sid]
+                    if len(errs) != 1:
+                        rep["violations"].append(dict(what=f"after a restart the refused spawn of `{g['name']}` is named by {len(errs)} "
+                                                           f"{g['name']}.spawn.error frames (exactly one expected, from before the restart)"))
+                elif g["kind"] == "plain":
+                    new_starts = [f for f in fr2 if f["topic"] == g["name"] + ".start" and f["id"] not in pre_ids and f["meta"] and f["meta"].get("source_id") == sid]
+                    if not new_starts:
+                        rep["violations"].append(dict(what=f"after a restart generator `{g['name']}` (spawn {sid[-6:]}) was not started again"))
+            rep["restarted"] = 1
+        finally:
+            cl2.close()
         return rep
     finally:
-        cl.close()
+        if cl is not None:
+            cl.close()
 
 
 # ---- content store scenarios (C10) -----------------------------------------------------------------
